@@ -130,9 +130,12 @@ P_Ctl(op, a, b, by) ==
               /\ heldDir'  = [heldDir EXCEPT ![<<a, b>>] = FALSE]
               /\ msgs' = DoomIn({<<a, b>>})
          [] op = "repair" ->
+              \* Sim::repair on a held link makes it healthy "without releasing any held
+              \* messages" (new sends flow, the parked ones wait for release): nothing
+              \* changes for the messages already held.
               /\ explicit' = [d \in Dirs |-> IF d \in BothDirs(a, b) THEN FALSE ELSE explicit[d]]
               /\ heldDir'  = [d \in Dirs |-> IF d \in BothDirs(a, b) THEN FALSE ELSE heldDir[d]]
-              /\ msgs' = UnspecHeldIn(BothDirs(a, b))
+              /\ msgs' = msgs
          [] op = "repair_oneway" ->
               /\ explicit' = [explicit EXCEPT ![<<a, b>>] = FALSE]
               /\ heldDir'  = [heldDir EXCEPT ![<<a, b>>] = FALSE]
